@@ -18,6 +18,18 @@
     Magnitudes: 12x12, 16x16, 20x20, 2x70, 70x2, 3x90 (>= 128 / >= 256 cells, connections, adjacency-list entries),
     Hamiltonian and longest-shortest solutions of 140..400 cells, candidate paths broken beyond index 127.
 
+    Audit 2 (classes C-H): every cell / path / edge batch / adjacency list / solution is the caller's OWN ndarray
+    (int64, int8, int16, int32; contiguous, Fortran-ordered, strided / negative-stride views; one array object for both
+    arguments of nodes_connected(a, a)); after each call it is compared with a snapshot and OVERWRITTEN before the result
+    is read; the maze's arrays are compared with the logged structure after every view.  The maze under the views is
+    built by the plain constructor, from Fortran-ordered / strided arrays, by load(serialize()), as SolvedMaze /
+    TargetedLatticeMaze, through from_lattice_maze / from_targeted_lattice_maze, with generation metadata, or is the
+    generator's own object (metadata that legitimately disagrees with the graph: gen_dfs_percolation); every graph of the
+    small shapes under 2 (thorough: all 11) rotations of these forms.  SolvedMaze for the fork queries: own array / list
+    (overwritten after construction) / factories; flags left out, by keyword, positional.  One- and two-cell paths and
+    solutions with every flag on the larger mazes too; empty / one-edge / duplicate-carrying edge batches; graphs without
+    any connection up to 15x15; walks that revisit cells (Layer M).  Oblong 2x5, 5x2, 3x7, 7x3, 2x4, 4x2 forced.
+
 Interpretation decisions (so that the oracle does not demand more than the statement):
   * orientation / order of as_adj_list entries and order of neighbour / component / node lists are free;
     "exactly once" = no connection twice, none missing, nothing that is not a connection.
@@ -429,15 +441,17 @@ def observe_maze(conn, rng, small, job, parity=0, m=None, order=None, scribble=F
 
     if m is None:
         prov = prov or PROVENANCE[parity % len(PROVENANCE)]
-        m = call("LatticeMaze", lambda: _build(conn, prov))
-        if m is not None and prov != "ctor":
-            # the connection structure of the OBJECT is the reference (what a factory did to it is not C13's subject)
-            got = mz.outcome(lambda: np.array(m.connection_list))[1]
+        if prov != "ctor":
+            # the connection structure of the OBJECT is the reference; a factory / subclass constructor that fails or yields
+            # something else than a boolean (2, R, C) array is not C13's subject: fall back to the plain constructor
+            m = mz.outcome(lambda: _build(conn, prov))[1]
+            got = mz.outcome(lambda: np.array(m.connection_list))[1] if m is not None else None
             if got is None or got.ndim != 3 or got.shape[0] != 2 or got.dtype.kind != "b" or 0 in got.shape:
-                err.append("LatticeMaze")
-                m = None
+                m, prov = None, prov + "_failed_ctor"
             else:
                 conn = got
+        if m is None:
+            m = call("LatticeMaze", lambda: mz.LatticeMaze(connection_list=conn))
     r, c = (int(v) for v in conn.shape[1:])
     cs = mz.cells(r, c)
     conn0 = np.array(conn, dtype=bool)  # snapshot of the logged structure
@@ -576,24 +590,32 @@ def observe_maze(conn, rng, small, job, parity=0, m=None, order=None, scribble=F
                 # the factories; the connection structure is the maze's own array.
                 S, T = mz.SolvedMaze, mz.TargetedLatticeMaze
                 how = (i + parity) % 5
-                if how in (0, 1):
-                    sol = _own_cells(p, parity + i)
-                    snap = sol.copy()
-                    sm = S(connection_list=m.connection_list, solution=sol)
-                    if not _same(sol, snap) and "SolvedMaze" not in argmod:
-                        argmod.append("SolvedMaze")
-                    sol[...] = 0
-                elif how == 2:
-                    sol = [list(x) for x in p]
-                    sm = S(connection_list=m.connection_list, solution=sol)
-                    for x in sol:
-                        x[:] = [0, 0]
-                elif how == 3:
-                    sm = S.from_lattice_maze(lattice_maze=m, solution=[tuple(x) for x in p])
-                else:
-                    sol = _own_cells(p, parity + i)
-                    sm = S.from_targeted_lattice_maze(T(connection_list=m.connection_list, start_pos=np.array(p[0]), end_pos=np.array(p[-1])), solution=sol)
-                    sol[...] = 0
+
+                def construct():
+                    if how in (0, 1):
+                        sol = _own_cells(p, parity + i)
+                        snap = sol.copy()
+                        sm_ = S(connection_list=m.connection_list, solution=sol)
+                        if not _same(sol, snap) and "SolvedMaze" not in argmod:
+                            argmod.append("SolvedMaze")
+                        sol[...] = 0
+                    elif how == 2:
+                        sol = [list(x) for x in p]
+                        sm_ = S(connection_list=m.connection_list, solution=sol)
+                        for x in sol:
+                            x[:] = [0, 0]
+                    elif how == 3:
+                        sm_ = S.from_lattice_maze(lattice_maze=m, solution=[tuple(x) for x in p])
+                    else:
+                        sol = _own_cells(p, parity + i)
+                        sm_ = S.from_targeted_lattice_maze(T(connection_list=m.connection_list, start_pos=np.array(p[0]), end_pos=np.array(p[-1])), solution=sol)
+                        sol[...] = 0
+                    return sm_
+
+                # a constructor form that fails is not C13's subject: the plain form then (its failure is an outcome)
+                sm = mz.outcome(construct)[1]
+                if sm is None:
+                    sm = S(connection_list=m.connection_list, solution=np.array(p))
                 q = dict(
                     # the default flag: left out / by keyword / positional (class C: False is a meaningful value)
                     f=[lambda: sm.get_solution_forking_points(), lambda: sm.get_solution_forking_points(always_include_endpoints=False), lambda: sm.get_solution_forking_points(False)][(i // 2 + parity) % 3],
@@ -608,7 +630,10 @@ def observe_maze(conn, rng, small, job, parity=0, m=None, order=None, scribble=F
                         _scribble(raw)
                 return [[_cl(x) for x in p]] + got["f"] + got["e"] + got["g"]
 
-            v = call("solution_forking_points", forks)
+            if field == "sols_m":  # Layer M throughout: a walk that is refused is a divergence (index -1 matches no rule), not an error
+                v = mz.outcome(forks)[1] or [[_cl(x) for x in p], [-1], [], [-1], [], [-1], []]
+            else:
+                v = call("solution_forking_points", forks)
             if v is not None:
                 rec[field].append(v)
 
@@ -770,11 +795,12 @@ def observe_big(seed, i):
 
 
 def observe(job):
-    """job = ["g", r, c, n, seed] | ["rand", seed, k, maxn] | ["lat", n, seed] | ["big", seed, i] -> one record;
+    """job = ["g", r, c, n, seed(, shift)] | ["rand", seed, k, maxn] | ["lat", n, seed] | ["big", seed, i] -> one record;
     ["hist", seed, k] -> list of records (one process, one history)"""
-    if job[0] == "g":
-        _, r, c, n, seed = job
-        return observe_maze(mz.conn_from_int(r, c, n), np.random.default_rng([seed, 1, r, c, n]), True, list(job), n)
+    if job[0] == "g":  # optional 6th entry: shift of the representation / provenance rotation
+        _, r, c, n, seed = job[:5]
+        shift = job[5] if len(job) > 5 else 0
+        return observe_maze(mz.conn_from_int(r, c, n), np.random.default_rng([seed, 1, r, c, n, shift]), True, list(job), n + shift)
     if job[0] == "rand":
         _, seed, k, maxn = job
         rng, r, c, kind, conn, gen = _random_case(seed, k, maxn)
@@ -901,6 +927,7 @@ def _canaries():
     mut(a, lambda y: y["isconn0"].__setitem__(0, -1), "M:is_connection_empty_batch")
     mut(a, lambda y: (y["sols_m"][0][1].append(2), y["sols_m"][0][2].append([0, 0])), "M:nonsimple_solution:fork_idxs")  # revisited start taken for an endpoint fork
     mut(a, lambda y: (y["sols_m"][1][1].remove(2), y["sols_m"][1][2].pop(1), y["sols_m"][1][3].remove(2), y["sols_m"][1][4].pop(1), y["sols_m"][1][5].append(2), y["sols_m"][1][6].append([0, 1])), "M:nonsimple_solution:fork_idxs")  # revisited junction not a fork
+    mut(a, lambda y: y["sols_m"].__setitem__(0, [y["sols_m"][0][0], [-1], [], [-1], [], [-1], []]), "M:nonsimple_solution:fork_idxs")  # the walk was refused
     mut(lat, lambda y: y["argmod"].append("manhattan_distance"), "M:argument_modified:manhattan_distance")
     mut(b, lambda y: y["rt"][0][3][0][0].__setitem__(1, 0), "from_adj_list_roundtrip")
     mut(b, lambda y: y["rt"][1][3][1][1].__setitem__(0, 1), "from_adj_list_roundtrip")  # stored at the greater endpoint
@@ -985,8 +1012,13 @@ def main(chk: lib.Check) -> int:
 
     # ---- (C) observations
     jobs = []
+    # every graph of the small shapes under several rotations of (maze provenance, argument representation, call form):
+    # quick 2 of the 11 rotations, thorough all 11 (+ every graph of 2x4 / 4x2 once)
     for rr, cc in SMALL:
-        jobs += [["g", rr, cc, n, chk.seed] for n in range(mz.n_graphs(rr, cc))]
+        jobs += [["g", rr, cc, n, chk.seed, sh] for n in range(mz.n_graphs(rr, cc)) for sh in (range(len(PROVENANCE)) if thorough else (0, 4))]
+    if thorough:
+        for rr, cc in [(2, 4), (4, 2)]:
+            jobs += [["g", rr, cc, n, chk.seed] for n in range(mz.n_graphs(rr, cc))]
     rng = np.random.default_rng(chk.seed)
     n33 = mz.n_graphs(3, 3)
     g33 = list(range(n33)) if thorough else sorted(rng.choice(n33, size=400, replace=False).tolist())
@@ -1039,7 +1071,7 @@ def main(chk: lib.Check) -> int:
     big = next(x for x in recs if x["job"][0] == "rand" and x["R"] * x["C"] > 9)
     chk.sample({k: big[k] for k in ("R", "C", "gen")} | {"deg": big["deg"], "sols": big["sols"][:2], "paths": big["paths"][1:4]})
     chk.exhaustive = True
-    chk.notes["exhaustive_scope"] = "all graphs of shapes " + str(SMALL + ([(3, 3)] if thorough else [])) + ("" if thorough else " + seeded 400 of the 4096 3x3 graphs")
+    chk.notes["exhaustive_scope"] = "all graphs of shapes " + str(SMALL + ([(3, 3), (2, 4), (4, 2)] if thorough else [])) + ("" if thorough else " + seeded 400 of the 4096 3x3 graphs")
     from maze_dataset.utils import lattice_max_degrees
 
     chk.notes["outside_statement"] = f"lattice_max_degrees(1) = {mz.outcome(lambda: np.asarray(lattice_max_degrees(1)).tolist())} (a 1x1 lattice has max degree 0); not judged"
@@ -1078,7 +1110,8 @@ def replay(path: str) -> int:
         x["id"] = i
     out = lib.oracle("Trace_Views", recs, tag="rp", shards=1)
     print("replay:", job, "verdicts:", out.verdicts)
-    if out.verdicts:
+    # Layer-M clauses (M:...) are model divergences, never violations
+    if any(not cl.startswith("M:") for cls in out.verdicts.values() for cl in cls):
         print(f"VIOLATION property=C13 replay={path}")
         return 1
     return 0
